@@ -54,6 +54,7 @@ def check(tier, seed):
         rule="closure/shadowing-heavy generated programs, each with three alpha-renamed twins (name_depth: un-shadowed; level: maximal re-use of names; collide: all bound names share one value of the compiler's identifier hash); I(p)=I(twin)=S(p); sizes of environment vectors = |fv| for every closure created",
         samples=st["samples"], stream=st, capture_shapes=shapes, known_defect_probes_hit=known, seed_corpus=seeds,
         share_programs_with_nonconstant_condition=round(st["progs_with_nonconst_cond"] / max(1, st["programs"]), 3),
+        share_programs_with_ranges_or_slices=round(st["progs_with_ranges_or_slices"] / max(1, st["programs"]), 3),
         rejected_by_real_compiler=st["rejected"])
     rep.assumptions = ["symtab.c hashing/lookup internals are not modelled", "liveness of captured cells across collections is C04's theorem; here closures are exercised with the default heap"]
     return rep.finish()
